@@ -25,6 +25,8 @@ def run(F, R):
 
     # ---------------------------------------------------------------- R1 the cup2key parameter
     R.rule("C03-R1", "decorate_request appends exactly one parameter cup2key=<latest key id>:<nonce> to the parsed request URI, with a nonce drawn in this invocation (32 random bytes, printed as hex), and writes the URI back")
+    from . import c01 as _c01
+    _c01.nonce_display(R, "C03-R1", c, W)   # "<key id>:<64 hex digits>": the nonce prints as hex::encode of its 32 bytes
     ap = [(bi, t) for bi, t in dec.calls() if lib.callee_is(t, "http_uri_ext::HttpUriExt::append_query_parameter")]
     R.check("C03-R1", "single-append", len(ap) == 1 and not dec.sccs(), "one append_query_parameter, no loop", "%d append_query_parameter calls" % len(ap))
     nonce_t = None
